@@ -19,9 +19,14 @@ pub fn verif_dir() -> String {
     std::env::var("VERIF_DIR").unwrap_or_else(|_| "/verif".to_string())
 }
 
-pub fn families(property: &str) -> Vec<Family> {
+pub fn families(property: &str, tier: &str) -> Vec<Family> {
+    let thorough = tier == "thorough";
     match property {
         "C01" | "C02" | "C03" | "C04" | "C05" | "C07" => vec![Family { name: "hist", weight: 1, gen: crate::hist::generate }],
+        "C06" => vec![
+            Family { name: "wire", weight: if thorough { 20 } else { 60 }, gen: crate::wire::generate },
+            Family { name: "wire-enum", weight: if thorough { 10 } else { 1 }, gen: crate::wire::generate_enum },
+        ],
         _ => vec![],
     }
 }
@@ -29,6 +34,7 @@ pub fn families(property: &str) -> Vec<Family> {
 pub fn dispatch(scn: &Scenario, ctx: &mut Ctx) -> Result<(), String> {
     match scn.family.as_str() {
         "hist" => crate::hist::run(scn, ctx),
+        "wire" => crate::wire::run(scn, ctx),
         f => return Err(format!("unknown scenario family {}", f)),
     }
     Ok(())
@@ -55,7 +61,7 @@ fn default_runs(property: &str, tier: &str) -> u64 {
 pub fn make_scenario(property: &str, tier: &str, master: u64, idx: u64) -> Scenario {
     let run_seed = mix(&[master, label_hash(property), label_hash(tier), idx]);
     let mut r = SimRng::new(run_seed).fork("gen");
-    let fams = families(property);
+    let fams = families(property, tier);
     let total: u64 = fams.iter().map(|f| f.weight).sum();
     let mut x = r.below(total.max(1));
     let mut chosen = &fams[0];
@@ -429,7 +435,7 @@ pub fn main(args: &[String]) -> Result<i32, String> {
 }
 
 fn run_check(property: &str, tier: &str) -> Result<i32, String> {
-    if families(property).is_empty() {
+    if families(property, tier).is_empty() {
         return Err(format!("no scenario family serves property {}", property));
     }
     crate::cv_selfcheck()?;
